@@ -5,6 +5,8 @@ package props
 import (
 	"context"
 	"fmt"
+	"net/http"
+	"net/http/httptest"
 	"strings"
 	"sync"
 	"testing"
@@ -13,6 +15,8 @@ import (
 	"github.com/indexsupply/shovel/eth"
 	"github.com/indexsupply/shovel/jrpc2"
 	"github.com/indexsupply/shovel/shovel/glf"
+	"nhooyr.io/websocket"
+	"nhooyr.io/websocket/wsjson"
 	"pgregory.net/rapid"
 
 	"verifharness/evid"
@@ -305,7 +309,10 @@ func TestC08_Head(t *testing.T) {
 	_, ns := env()
 	rapid.Check(t, func(rt *rapid.T) {
 		maxreads := rapid.IntRange(1, 5).Draw(rt, "maxreads")
-		poll := rapid.Bool().Draw(rt, "poller")
+		// how the head cache is fed besides the callers' own fetches: not at all, by the
+		// 1 ms HTTP poller, or by a newHeads subscription over a web socket
+		mode := rapid.SampledFrom([]string{"none", "http-poll", "http-poll", "ws"}).Draw(rt, "feeder")
+		poll := mode != "none"
 		// announcement script: (number, hash) pairs, repeats and regressions included
 		type ann struct {
 			num  uint64
@@ -356,10 +363,50 @@ func TestC08_Head(t *testing.T) {
 		url := ns.Attach(node, "")
 		defer ns.Detach(url)
 		pd := time.Hour
-		if poll {
+		if mode == "http-poll" {
 			pd = time.Millisecond
 		}
 		c := jrpc2.New(url).WithMaxReads(maxreads).WithPollDuration(pd)
+		if mode == "ws" {
+			stopWS := make(chan struct{})
+			defer close(stopWS)
+			srv := httptest.NewServer(http.HandlerFunc(func(w http.ResponseWriter, r *http.Request) {
+				wc, err := websocket.Accept(w, r, nil)
+				if err != nil {
+					return
+				}
+				defer wc.Close(websocket.StatusNormalClosure, "")
+				ctx := r.Context()
+				var req map[string]any
+				if err := wsjson.Read(ctx, wc, &req); err != nil {
+					return
+				}
+				if err := wsjson.Write(ctx, wc, map[string]any{"jsonrpc": "2.0", "id": req["id"], "result": "0x5ub"}); err != nil {
+					return
+				}
+				for {
+					select {
+					case <-stopWS:
+						return
+					case <-time.After(time.Millisecond):
+					}
+					mu.Lock()
+					a := script[min(pos, len(script)-1)]
+					if pos < len(script)-1 {
+						pos++
+					}
+					served[fmt.Sprintf("%d/%s", a.num, a.hash)] = true
+					mu.Unlock()
+					msg := map[string]any{"jsonrpc": "2.0", "method": "eth_subscription", "params": map[string]any{"subscription": "0x5ub",
+						"result": map[string]any{"number": fmt.Sprintf("0x%x", a.num), "hash": a.hash, "parentHash": "0x" + strings.Repeat("00", 32)}}}
+					if err := wsjson.Write(ctx, wc, msg); err != nil {
+						return
+					}
+				}
+			}))
+			defer srv.Close()
+			c = c.WithWSURL("ws" + strings.TrimPrefix(srv.URL, "http"))
+		}
 		regress := false
 		for i := 1; i < len(script); i++ {
 			if script[i].num < script[i-1].num {
@@ -434,7 +481,7 @@ func TestC08_Head(t *testing.T) {
 				time.Sleep(time.Duration(rapid.IntRange(0, 2).Draw(rt, "sleepms")) * time.Millisecond)
 			}
 		}
-		ev.Case(regress, strings.Join(hist, ";"), fmt.Sprintf("poller=%v", poll), fmt.Sprintf("regression=%v", regress), fmt.Sprintf("maxreads=%d", maxreads))
+		ev.Case(regress, strings.Join(hist, ";"), "feeder="+mode, fmt.Sprintf("regression=%v", regress), fmt.Sprintf("maxreads=%d", maxreads))
 		if regress && ev.WantSample(2) {
 			ev.Sample(2, map[string]any{"announcements": fmt.Sprint(script), "calls": hist})
 		}
